@@ -101,6 +101,21 @@ def run(tier):
     hists = mc.emitted
     if len(hists) < 1000:
         raise vf.MachineryError("BuilderMC emitted only %d histories" % len(hists))
+    # the exhaustive run identifies states by the builder's abstract state (VIEW): it replays ONE callback sequence per abstract state. That an
+    # implementation's state is a function of the model's is what the replay is to establish, so further paths to the same states are sampled by random walks
+    cfg2 = os.path.join(c.run_dir, "BuilderMC_walks.cfg")
+    open(cfg2, "w").write(open(cfg).read().replace("VIEW View\n", ""))
+    ms = vf.run_tlc("BuilderMC", cfg2, c.run_dir, timeout=1500, xmx="8g", keep_out=False, simulate=400 if quick else 4000, depth=8 if quick else 10, workers=8, seed=c.seed)
+    c.add_tlc("BuilderMC_walks", ms, "random callback sequences (no state identification): more than one path into the same abstract state")
+    seen = {json.dumps(h["h"], sort_keys=True) for h in hists}
+    extra = []
+    for h in ms.emitted:
+        k = json.dumps(h["h"], sort_keys=True)
+        if k not in seen:
+            seen.add(k)
+            extra.append(h)
+    c.cov["histories_from_random_walks"] = len(extra)
+    hists = hists + extra
     # ---- 2. B2: replay every history into the real DocumentBuilder
     per = 2000
     jobs = [{"id": "h%d" % (k // per), "cases": hists[k:k + per], "timeout": 600} for k in range(0, len(hists), per)]
